@@ -334,7 +334,9 @@ fn setup_disk_handle(path: &Path, tasks: Receiver<Task>) -> heed::Result<Env> {
     txn.commit()?;
 
     let env2 = env.clone();
-    std::thread::spawn(move || run_tasks(env, tasks, keyspace_list));
+    let _worker = std::thread::spawn(move || run_tasks(env, tasks, keyspace_list));
+    #[cfg(datacake_verif)]
+    crate::verif::register_worker(env2.path().to_path_buf(), _worker);
 
     Ok(env2)
 }
